@@ -109,8 +109,18 @@ def main():
             rc = mod.replay(ctx, json.load(open(a.replay)))
             sys.exit(rc)
         if a.selftest:
-            rc = mod.selftest(ctx)
-            sys.exit(rc)
+            # binding demonstration: one implementation-produced value is changed in every recorded behaviour before validation;
+            # the validator must reject (nearly) all of them.  Evidence is not rewritten.
+            os.environ["VERIF_CORRUPT"] = "1"
+            res = mod.run(ctx)
+            nv = len(res.get("violations", [])) + sum(d.get("count", 0) for d in res.get("deviations", []))
+            n = max(1, res.get("traces", 0))
+            spots = sum(1 for v in tlc.LAST_CORRUPTED.values() if v is not None)
+            print(f"SELFTEST {prop}: {res.get('traces')} recorded behaviours, one produced value corrupted in each (last batch: {spots} of {len(tlc.LAST_CORRUPTED)} had a "
+                  f"corruptible field); clause failures reported: {nv}")
+            ok = nv > 0
+            print("SELFTEST " + ("ok: corrupted traces are rejected" if ok else "FAILED: no corrupted trace was rejected"))
+            sys.exit(0 if ok else 1)
         res = mod.run(ctx)
     except tlc.TLCError as ex:
         print("MACHINERY-FAILURE " + str(ex)[:6000])
